@@ -245,7 +245,8 @@ class C11(Prop):
         "set_expect_fills_all_bins", "expected_tail_emin_in_range", "expected_counts_account_for_the_mass", "goodness_never_faults", "goodness_accounts_for_its_counts", "goodness_range_is_the_raw_data_above_its_threshold",
         "plot_accounts_for_data", "plot_survival_accounts_for_data", "plot_qq_in_bounds", "declare_rounding_keeps_the_data",
         # round 6
-        "sxp_objective_is_neg_loglik", "sxp_rate_is_maximiser", "sxp_rate_closed_form", "weibull_binned_objective_is_neg_loglik", "weibull_cdf_is_distribution_function")]
+        "sxp_objective_is_neg_loglik", "sxp_rate_is_maximiser", "sxp_rate_closed_form", "weibull_binned_objective_is_neg_loglik", "weibull_cdf_is_distribution_function",
+        "gev_fit_post", "gev_objective_is_neg_loglik", "gev_gradient_is_derivative")]
     claimed = True
     technique = ("Lean 4 proof over an executable line-by-line model (numeric class: Float for the bit-exact differential run, Q/R for the theorems) "
                  "+ bit-exact correspondence with the ASan/UBSan-built C code + exact-rational / log-likelihood property monitors")
@@ -261,6 +262,10 @@ class C11(Prop):
                   "Weibull: wei_func is minus the log-likelihood, its partial derivatives, lambda = exp(w) > 0, tau = exp(v) > 0, and the log-likelihood is concave in (tau, tau*log lambda): a "
                   "stationary point is THE global maximum, the only one, and the shortfall of ANY point is bounded by its derivatives (optimality certificate). Truncated Gumbel: tevd_grad is the gradient of "
                   "tevd_func (HasDerivAt, main branches). Gamma: lambda = tau/xbar is the maximiser in lambda for every tau, gam_nll is minus the profile likelihood. "
+                  "Stretched exponential: sxp_complete_func is minus the log-likelihood (with the code's LogGamma), concave in log lambda for every tau, so lambda^tau = n/(tau*sum (x-mu)^tau) "
+                  "is THE maximiser in lambda (closed form, unique). GEV (esl_gev_FitComplete/FitCensored, modelled line by line incl. libm log1p): documented status, gev_func is minus the GEV "
+                  "log-likelihood and gev_gradient IS its gradient in (mu, log lambda, alpha) (HasDerivAt, main branch). Binned Weibull: wei_binned_func = -sum obs[b]*log(F(ub)-F(max(lb,mu))), "
+                  "F = esl_wei_cdf = the Weibull distribution function. "
                   "OPTIMISERS - esl_min_ConjugateGradientDescent/bracket/brent/numeric_derivative and esl_root_Bisection/NewtonRaphson modelled line by line (any objective, numeric class): documented "
                   "status, <= max_iterations rows and <= brack_maxiter rounds per row, fx = f(x) on return, bracket post-condition, brent never worse than its start, bisection keeps the root "
                   "bracketed and converges for roots of either sign (8354c02); descent holds unless a brent() call returns above bracket()'s middle point (and a counter-example shows it can). "
@@ -272,15 +277,15 @@ class C11(Prop):
     level_note = ("Residual: binary64 rounding (L0) is not a theorem (values within rounding distance of a bin edge; exp(-lambda*x) under/overflow). "
                   "NOT a theorem: that the conjugate-gradient stopping rule (relative decrease of f below 1e-5) makes the gradient small, so 'the point reached maximises the likelihood' is proved only "
                   "conditionally (Weibull: bounded by the derivatives at the point; stationarity => global maximum); monitored: local pattern search, fit >= generating parameters, recovery on exact "
-                  "quantile grids of every family. Gamma stationarity in tau (digamma; the code uses its own series), stretched exponential and GEV likelihood shape: not proved. "
-                  "Not modelled (monitors only): GEV fits (log1p/expm1 are not available to the executable model), stretched-exponential binned fit (esl_sxp_cdf ignores the status of "
+                  "quantile grids of every family. Gamma stationarity in tau (digamma; the code uses its own series), stretched-exponential shape in tau and GEV likelihood shape (concavity): not proved. "
+                  "Not modelled (monitors only): stretched-exponential binned fit (esl_sxp_cdf ignores the status of "
                   "esl_stats_IncompleteGamma and may return an unset value for extreme parameters), esl_histogram_Write/Print and the number formatting of the plots, esl_gumbel/esl_exp tail fits. "
                   "Log-normal sigma uses the n-1 variance, not the ML n; libm and libc qsort are trusted. "
                   "Genuine defects found while building this check and repaired in /repo: b44f0f8 7d6f911 fd84f7f bad2f4e 2487976 935fded 9b72a6e 6f20587 6da6a89 8354c02 6815f41; their witnesses are corpus regression cases.")
     diverge_is_violation = True
     fault_is_output = True      # faults are classified by monitor() (a hang inside a CG-based fit carries the known key)
     trusted_base = ["hand model of esl_histogram.c and of the closed-form/Newton fits tied by a bit-exact differential run (h_stats.c, ASan+UBSan build of the working tree)",
-                    "Lean compiler/runtime for the executable driver; libm exp/log/sqrt/ceil shared by both sides", "libc qsort sorts (modelled by a merge sort)",
+                    "Lean compiler/runtime for the executable driver; libm exp/log/sqrt/ceil/log1p shared by both sides", "libc qsort sorts (modelled by a merge sort)",
                     "IEEE-754 rounding (L0): theorems are over Q/R, never about rounded results"]
     assumptions = ["allocation never fails (eslEMEM paths not modelled)", "libc qsort sorts (modelled as a merge sort; -0.0/0.0 ties excluded from the raw-data hash)",
                    "binary64 evaluation of (x-bmin)/w within rounding distance of a bin edge is L0: compared bit-exactly with the model, monitored with a relative 1e-9 tolerance unless all quantities are dyadic",
@@ -289,8 +294,9 @@ class C11(Prop):
                    "SetExpect SetExpectedTail Goodness (with esl_stats_ChiSquaredTest/IncompleteGamma/LogGamma) and the bin accounting of Plot/PlotSurvival/PlotQQ; "
                    "esl_exp_FitComplete FitCompleteScale FitCompleteBinned; esl_lognormal_FitComplete FitCountHistogram; esl_stats_DMean Psi Trigamma; lawless416 lawless422 esl_gumbel_FitComplete FitCompleteLoc "
                    "FitCensored FitCensoredLoc FitTruncated (tevd_func tevd_grad); esl_wei_FitComplete FitCompleteBinned; esl_sxp_FitComplete; esl_gam_FitComplete FitCountHistogram FitCompleteBinned; "
+                   "esl_gev_FitComplete FitCensored (fitting_engine gev_func gev_gradient esl_gev_logpdf esl_gev_logcdf; log1p = the libm symbol on the Float side, log(1+x) over R); "
                    "esl_min_ConjugateGradientDescent numeric_derivative bracket brent (incl. ESL_MIN_DAT); esl_root_Bisection NewtonRaphson",
-                   "not modelled (implementation-side monitors only): esl_gev_* fits, esl_sxp_FitCompleteBinned, histogram Write/Print (text formatting), allocation failure paths"]
+                   "not modelled (implementation-side monitors only): esl_sxp_FitCompleteBinned, histogram Write/Print (text formatting), allocation failure paths"]
     rule = ("cases = histogram operation histories (create, batches of Adds that force repeated growth below and above, edge values +-1 ulp, ties, non-finite and out-of-int-range values, "
             "rank/tail/censoring queries, Add after finishing) and data sets (exact quantile grids, the library's own samplers, ties, outliers, scales 1e-6..1e6, censoring 0..0.9, degenerate sets) "
             "run through every fit; non-trivial = at least one ok answer and no fault; distinct by output trace")
@@ -537,6 +543,7 @@ class C11(Prop):
             elif k == "gumbeltrunc": ops.append("fit kind=gumbeltrunc a=%s" % d(lo))
             elif k == "gamma": ops.append("fit kind=gamma a=%s" % d(mu_known if mu_known is not None else (lo - 0.5 * (max(xs) - lo) / max(2, len(xs)) if xs else 0.0)))
             elif k in ("weibull", "sxp", "gev"): ops.append("fit kind=%s" % k)
+            elif k == "gevcens": ops.append("fit kind=gevcens z=%d a=%s" % (rng.choice([0, 1, 3, len(xs)]) if rng else 2, d(lo - (rng.choice([0.0, 0.5, 10.0]) if rng else 1.0))))
         return ops
 
     def hist_case(self, rng, idx, tier):
@@ -745,9 +752,9 @@ class C11(Prop):
             elif order < 0.7 and len(xs) > 2:                        # smallest observation last, the rest shuffled
                 xs = sorted(xs); m0 = xs.pop(0); rng.shuffle(xs); xs.append(m0)
             ops = ["data xs=" + ",".join(d(x) for x in xs)]
-            kinds = {"exp": ["exp", "expscale", "gumbel", "weibull", "sxp"], "gumbel": ["gumbel", "gumbelloc", "gumbelcens", "gumbelcensloc", "gumbeltrunc", "exp"],
+            kinds = {"exp": ["exp", "expscale", "gumbel", "weibull", "sxp"], "gumbel": ["gumbel", "gumbelloc", "gumbelcens", "gumbelcensloc", "gumbeltrunc", "exp", "gev"],
                      "weibull": ["weibull", "exp", "sxp", "gamma"], "lognormal": ["lognormal", "exp", "gumbel"], "gamma": ["gamma", "exp", "weibull"],
-                     "sxp": ["sxp", "exp", "weibull"], "gev": ["gev", "gumbel"]}[kind]
+                     "sxp": ["sxp", "exp", "weibull"], "gev": ["gev", "gevcens", "gumbel"]}[kind]
             # esl_gam_FitComplete takes the location as known: on the law's own untouched data pass the true one
             mk = meta["mu"] if (kind == "gamma" and meta["mod"] == "none" and all(x > meta["mu"] for x in xs)) else None
             ops += [o for o in self.fit_ops(xs, rng, kinds, meta["lambda"] if kind == "gumbel" else None, mk) if "gumbelcens" not in o and "gumbeltrunc" not in o
@@ -770,6 +777,18 @@ class C11(Prop):
                             "fit kind=gumbeltrunc a=%s" % d(phi)]
                     cases.append({"name": "fit%d-gumbel-cens%.1f-n%d-%s" % (i, frac, n, meta["mod"]), "ops": cops, "sticky": 1,
                                   "meta": dict(meta, censfrac=frac, z=z, phi=phi)})
+            if kind == "gev" and 3 <= len(xs) <= 1000:
+                # esl_gev_FitCensored: censoring fraction 0..0.9 of the same data (z values at or below phi removed)
+                sx = sorted(xs)
+                for frac in rng.sample([0.0, 0.1, 0.3, 0.5, 0.7, 0.9], 2):
+                    cut = int(frac * len(sx))
+                    phi = sx[cut - 1] if cut > 0 else nextdown(sx[0])
+                    obs = [x for x in sx if x > phi]
+                    z = len(sx) - len(obs)
+                    if len(obs) < 2: continue
+                    if rng.random() < 0.5: rng.shuffle(obs)
+                    cases.append({"name": "fit%d-gev-cens%.1f-n%d-%s" % (i, frac, n, meta["mod"]), "sticky": 1, "meta": dict(meta, censfrac=frac, z=z, phi=phi, mod="censored"),
+                                  "ops": ["data xs=" + ",".join(d(x) for x in obs), "fit kind=gevcens z=%d a=%s" % (z, d(phi)), "fit kind=gev"]})
         # tightly clustered small samples around an offset: Newton/Raphson misses |f| < 1e-5 in 100 steps, the bisection fallback runs
         for j in range(max(6, count // 12)):
             n = rng.choice([2, 2, 3, 4, 5, 8])
@@ -783,7 +802,7 @@ class C11(Prop):
         # degenerate inputs: termination / documented failure status
         for xs in ([], [1.0], [2.0, 2.0], [1.0, 2.0], [0.0, 0.0, 0.0, 1e-300], [1e150, 2e150, 3e150], [-5.0, -4.0, -3.0], [1e-310, 2e-310, 5e-310]):
             # n = 0 is only documented for the exponential and Gumbel fits (eslEINVAL); the others require n > 0
-            ks = ["exp", "expscale", "gumbel", "gumbelloc", "gumbeltrunc", "weibull", "sxp", "gamma", "lognormal"] if xs else ["exp", "gumbel", "gumbelloc", "gumbeltrunc"]
+            ks = ["exp", "expscale", "gumbel", "gumbelloc", "gumbeltrunc", "weibull", "sxp", "gamma", "lognormal", "gev", "gevcens"] if xs else ["exp", "gumbel", "gumbelloc", "gumbeltrunc"]
             ops = ["data xs=" + (",".join(d(x) for x in xs) if xs else "-")] + self.fit_ops(xs, rng, ks)
             phi0 = (min(xs) - 1.0) if xs else 0.0
             ops += ["fit kind=gumbelcens z=%d a=%s" % (zz, d(phi0)) for zz in (0, 3)] + ["fit kind=gumbelcensloc z=2 a=%s b=%s" % (d(phi0), d(0.693))]
